@@ -39,6 +39,13 @@ def gen_table(rng, cfg, alpha, with_scalars=True):
     others = []
     # column names that are also names of functions in the namespace column expressions are evaluated in
     pool = ["x", "y", "z"] if rng.random() < 0.75 else rng.sample(["sign", "log", "mod", "power", "angle", "real"], 3)
+    idx = cfg.get("index_name", "name")
+    if cfg.get("substr_cols"):
+        # a column whose name contains the name of the index column
+        pool[rng.randrange(3)] = {"name": "parent_name", "elem": "elem2", "s": "bets", "key": "keys", "n": "n1"}[idx]
+    if idx != "name" and cfg.get("name_col"):
+        # an ordinary column that happens to be called like the default index column
+        pool[rng.randrange(3)] = "name"
     for j in range(ncol):
         kind = rng.choice(["f", "f", "i", "s"])
         cname = pool[j]
@@ -49,12 +56,12 @@ def gen_table(rng, cfg, alpha, with_scalars=True):
         elif kind == "i":
             vals = [rng.randint(-3, 6) for _ in range(n)]
         else:
-            vals = [rng.choice(["u", "v", "w"]) for _ in range(n)]
+            vals = [rng.choice(["u", "v", "w"] if cname != "name" else alpha) for _ in range(n)]
         others.append((cname, kind, vals))
     if cfg.get("index_first", True) and order < 0.8:
-        cols = [("name", "s", names)] + others
+        cols = [(idx, "s", names)] + others
     else:
-        cols = others + [("name", "s", names)]
+        cols = others + [(idx, "s", names)]
     scal = []
     if with_scalars and rng.random() < 0.5:
         scal.append(("energy", 6.5))
@@ -64,10 +71,10 @@ def gen_table(rng, cfg, alpha, with_scalars=True):
             # non-column entries need not be numbers or strings
             extra = rng.choice([("tuple", [1, 2]), ("none",), ("list", [1.5, 2.5]), ("array", [float(i) for i in range(n + 3)]), ("dict", 1)])
             scal.append(("meta", extra))
-    out = {"cols": cols, "index": "name", "scalars": scal}
+    out = {"cols": cols, "index": idx, "scalars": scal}
     if cfg.get("fixed_width") and n > 0:
         # the index column keeps a fixed-width numpy string dtype (Table(..., cast_strings=False))
-        out["cols"] = [(c[0], "u" if c[0] == "name" else c[1], c[2]) for c in cols]
+        out["cols"] = [(c[0], "u" if c[0] == idx else c[1], c[2]) for c in cols]
         out["fixed_width"] = True
     return out
 
